@@ -556,7 +556,7 @@ def run(ctx):
             ctx.exec_case(case, run_case)
     except Failure:
         return
-    ctx.run_given(cases(), run_case, ctx.n(quick=1250, thorough=30000))
+    ctx.run_given(cases(), run_case, ctx.n(quick=1250, thorough=20000))
 
 
 def replay(case, ctx):
